@@ -9,6 +9,30 @@ ALL = [f"C{n:02d}" for n in range(1, 21)]
 
 # property -> dict(category, text, note, technique, design_ref, engine)
 CLAIMED = {
+    "C01": dict(
+        category="exploration",
+        text="Honest aggregates (per-run pool of registrations: 1..6 parties, equal/random/2^60-vs-1 stakes, m<=10, phi incl. 1) are mutated by a 23-rule grammar over their JSON view (index sets, m-boundary values, not-won indices, signer slots, claimed key/stake, outsider keys carrying genuine signatures, sigma surgery incl. compensating pairs, Merkle batch-path nodes and indices), pushed through five wire paths (JSON, JSON-hex key, CBOR, bytes-hex key, harness-packed legacy bytes) and verified under the same or a foreign context (k+, m-, other phi/msg/avk); batches of 1..4 with one mutated member or a compensating pair. Oracle: an independent acceptance rule (>=k distinct indices, all < m, each won per the exact C08 reference lottery, each (key,stake) registered, each sigma valid via blst directly) evaluated on the object actually verified; batch accepted => every member accepted alone. Soundness against structural adversaries is what generated search can decide; it found and (after repair) guards two genuine defects.",
+        note="Trusted base: blst BLS12-381, Blake2b, the interval-arithmetic lottery reference. Structural adversaries only (no forgeries). A panic inside verify counts as 'not accepted'. Claimed stakes are bounded by 4x total stake (larger values only slow the lottery down).",
+        technique="property-based testing: mutation grammar over honest aggregates + independent acceptance-rule oracle (proptest)",
+        design_ref="DESIGN.md §2 C01",
+        engine="p-stm",
+    ),
+    "C02": dict(
+        category="exploration",
+        text="For pooled registrations, a base set S of honest signatures (subset, optionally index-restricted) gets 0..5 extras (exact copies, index-restricted copies, other-message signatures, wrong or unregistered signer slots, not-won indices, shifted sigma) inserted at generated positions, plus a second ordering. Oracle: reference coverage model U(S) = union of index sets of the valid members; |U| >= k => aggregation Ok and the aggregate verifies; Ok(S) => Ok(S'); order independence; no panic. Generated multisets are exactly the quantifier of the property; the check found and (after repair) guards two genuine defects.",
+        note="Validity of a single signature is SingleSignature::verify under the party registered at its slot (soundness of that is C01/C08). Pool worlds are built without calling the aggregation under test.",
+        technique="property-based testing: metamorphic + coverage-model oracle over generated signature multisets (proptest)",
+        design_ref="DESIGN.md §2 C02",
+        engine="p-stm",
+    ),
+    "C08": dict(
+        category="exploration",
+        text="The working tree's eligibility.rs is compiled into the harness (path inclusion) and compared on 20k generated (phi, stake, total, draw) tuples with an exact reference: fixed-point interval arithmetic (704 fractional bits, directed rounding, rigorous Taylor remainder) around e^x, with draws concentrated at threshold +- 2^s; 8k monotonicity pairs (stake grows / draw shrinks) at every distance down to +-1; 1k public-API worlds where the signer's claimed index set and the verifier's verdicts are compared with the reference on the real Blake2b draws. A differential against an exact reference with threshold-concentrated inputs is the strongest decision this family offers for a numeric comparison; it found and (after repair) guards a genuine defect.",
+        note="ln(1-phi) is taken from the platform f64 ln (as the implementation does) and enclosed by +-2^-50 relative: draws inside that enclosure (about threshold +- 2^462 of 2^512) are the negligible band and are not judged against the reference (monotonicity and determinism are still checked there). phi = 1-2^-53 and (phi=1, stake=0) are outside the domain.",
+        technique="property-based testing: differential against an exact interval-arithmetic reference, threshold-concentrated generators, metamorphic monotonicity pairs",
+        design_ref="DESIGN.md §2 C08",
+        engine="p-stm",
+    ),
     "C17": dict(
         category="exploration",
         text="Exhaustive walk of every (security parameter <= 40, step <= 40, tip <= 200) triple for both entity kinds plus 60k generated (tip, tip+delta, k, step, epoch) cases at the numeric boundaries (0, 1, block-range length +-1, 2^32+-1, 2^62, u64::MAX tips); each clause of the statement (margin, monotone, whole steps, complete block range, purity across independently built / JSON round-tripped configs) is an executable oracle. Arithmetic on a three-parameter integer function is exactly where a small exhaustive box plus boundary sampling is decisive.",
